@@ -830,7 +830,9 @@ func gmeDriverBody(variant int) func(s *vsched.Sched) *vsched.ExecOutcome {
 		// updates applied by the updater thread; variant 3: Close instead; variant 4: the named caller
 		// uses a name no MultiEndpoint has (routed through the default one)
 		// variant 5: two reconfigurations overlap (each adds the pool of e3), then Close
-		targets := [][]int{{6}, {0}, {4, 1}, {}, {6}, {3}}[variant]
+		// variant 6: no reconfiguration; the pool of the preferred endpoint goes down and comes back at
+		// once: when everything has settled routing must be back on it (a monitor must not lose a flip)
+		targets := [][]int{{6}, {0}, {4, 1}, {}, {6}, {3}, {3}}[variant]
 		named := "r"
 		if variant == 4 {
 			named = "no-such-multiendpoint"
@@ -860,12 +862,19 @@ func gmeDriverBody(variant int) func(s *vsched.Sched) *vsched.ExecOutcome {
 				}
 			}
 		}
+		if variant == 6 {
+			// only the environment and the pools' monitors run: small enough for two preemptions
+			rpc = func(string) func() { return func() {} }
+		}
 		ths := []*vsched.Thread{
 			s.Go("rpcDefault", rpc("")),
 			s.Go("rpcNamed", rpc(named)),
 			s.Go("updater", func() {
 				for _, t := range targets {
 					w.gme.UpdateMultiEndpoints(menu[t].build(0, 0, w.dial))
+				}
+				if variant == 6 {
+					return
 				}
 				if len(targets) == 0 {
 					w.gme.Close()
@@ -881,6 +890,9 @@ func gmeDriverBody(variant int) func(s *vsched.Sched) *vsched.ExecOutcome {
 				}
 				if cc := w.open["e1"]; cc != nil {
 					cc.SetState(connectivity.TransientFailure)
+					if variant == 6 {
+						cc.SetState(connectivity.Ready)
+					}
 				}
 			}),
 		}
@@ -890,6 +902,22 @@ func gmeDriverBody(variant int) func(s *vsched.Sched) *vsched.ExecOutcome {
 			names = append(names, "updater2")
 		}
 		s.WaitQuiescent()
+		if variant == 6 {
+			// everything has settled (monitors are parked): e1 is READY again, so the default
+			// MultiEndpoint d:[e1,e2] must route through e1's pool
+			n := map[*vgrpc.ClientConn]int{}
+			for _, cc := range vgrpc.Dialed {
+				n[cc] = len(cc.Calls)
+			}
+			ths = append(ths, s.Go("rpcSettled", func() { w.gme.Invoke(context.Background(), "/svc/m", nil, nil) }))
+			names = append(names, "rpcSettled")
+			s.WaitQuiescent()
+			for _, cc := range vgrpc.Dialed {
+				if len(cc.Calls) > n[cc] && cc.Target != "e1" && w.open["e1"] != nil && w.open["e1"].PeekState() == connectivity.Ready {
+					add("C15", "C15.G3", "routing does not follow a pool that went down and came back", fmt.Sprintf("call routed to %s although the pool of e1 (first endpoint of the default MultiEndpoint) is READY and nothing is pending", cc.Target))
+				}
+			}
+		}
 		if variant == 5 {
 			// a late RPC, then Close: nothing dialed by either update may stay open
 			updDone = true
@@ -951,7 +979,7 @@ func runGMEDrivers(c *vsched.RunCtx, race bool) {
 	if c.Thorough() {
 		pre, delay = 2, 4
 	}
-	for v := 0; v < 6; v++ {
+	for v := 0; v < 7; v++ {
 		name := fmt.Sprintf("variant=%d", v)
 		if c.Replay != nil {
 			if c.Replay.Harness == "sched:gme-update" && c.Replay.Config == name {
@@ -971,7 +999,11 @@ func runGMEDrivers(c *vsched.RunCtx, race bool) {
 			}
 			continue
 		}
-		res := vsched.Explore(vsched.ExploreOpts{Name: "sched:gme-update", Config: name, PreemptBound: pre, DevBound: dev, DelayBound: delay, Race: race,
+		vpre, vdelay := pre, delay
+		if v == 6 {
+			vpre, vdelay = pre+1, delay+1
+		}
+		res := vsched.Explore(vsched.ExploreOpts{Name: "sched:gme-update", Config: name, PreemptBound: vpre, DevBound: dev, DelayBound: vdelay, Race: race,
 			Deadline: c.Deadline, Shard: c.Shard, NShards: c.NShards}, gmeDriverBody(v))
 		c.Add(res)
 	}
